@@ -171,7 +171,8 @@ class C05(Prop):
                 cells += 1
                 if ci and img != base:
                     fails.append({"msg": "black box %s, Clean with Sort on CI: the snapshot file was rewritten" % where})
-                if not ci and (sorted(img.get("m_test.snap", b"").split(b"\n")) != sorted(base["m_test.snap"].split(b"\n"))
+                from C09 import parse_entries
+                if not ci and (sorted(parse_entries(img.get("m_test.snap", b""))) != sorted(parse_entries(base["m_test.snap"]))
                                or img.get("m_test.snap", b"").find(b"[TestGone - 1]") > img.get("m_test.snap", b"").find(b"[TestVal - 1]")):
                     fails.append({"msg": "black box %s, Clean with Sort: the file is not the sorted rearrangement of its entries" % where})
         shutil.rmtree(snapdir, ignore_errors=True)
@@ -197,7 +198,8 @@ class C05(Prop):
             return self.skip("a shrunk case that lost the recording run: the cell's state no longer ")
         exp_out, exp_write = self.expected(ci, opt, upd, state)
         wrote = o["writes"] != "-" or fss[0][2] != fss[1][2]
-        if o["outcome"] != exp_out or wrote != exp_write:
+        # (the table decides WHETHER the call fails and whether anything is written; which message reports the failure is not its business)
+        if o["outcome"].split(":")[0] != exp_out.split(":")[0] or wrote != exp_write:
             return [{"msg": "cell CI=%s Update=%s UPDATE_SNAPS=%s api=%s state=%s: outcome=%s wrote=%s, table says %s wrote=%s"
                      % (ci, opt, upd, api, state, o["outcome"], wrote, exp_out, exp_write)}]
         return []
